@@ -529,7 +529,8 @@ UNREGISTERED = {
 	# structured vector-tile layers through Box<dyn ValueReader> sub-readers: no verdict in 2400 s
 	"c11_layer_read_2_2", "c11_layer_reencode_2_2", "c10_layer_merge_2_2",
 	# found the from_utf8(..).unwrap() defect of format_error in 14-240 s on the unrepaired tree; with the repair (from_utf8_lossy over a
-	# window of >= 3 symbolic bytes) CBMC runs out of memory (24 GB, ~1000 s): positions 1 and 2 stay registered
+	# window of >= 3 symbolic bytes) CBMC runs out of memory (24 GB, ~1000 s; position 3 is proven under a 44 GB cap in 2300 s - too
+	# close to the tier cap to register): positions 1 and 2 stay registered
 	"c19_format_error_pos3", "c19_format_error_pos16", "c19_format_error_pos17", "c19_format_error_pos33",
 	# JSON string parser on symbolic bytes (from_utf8 validation of symbolic bytes): no verdict in 1200-2400 s
 	"c19_json_string_plain2", "c19_json_string_unicode_any", "c19_json_string_truncated",
